@@ -14,8 +14,13 @@ const ROWS: usize = 3;
 
 /// rows of length 2,1,0 (spare capacity so that one push does not reallocate), values symbolic
 fn mk_rm(v: &[u32; 3]) -> RM {
+    mk_rm_first(v, None)
+}
+/// same, with an optional extra entry `w` at the FRONT of row 0 (row lengths 3,1,0)
+fn mk_rm_first(v: &[u32; 3], w: Option<u32>) -> RM {
     let mut data: Vec<Vec<AnnotationHandle>> = Vec::with_capacity(ROWS + 1);
     let mut r0 = Vec::with_capacity(4);
+    if let Some(w) = w { r0.push(AnnotationHandle::new(w as usize)); }
     r0.push(AnnotationHandle::new(v[0] as usize));
     r0.push(AnnotationHandle::new(v[1] as usize));
     let mut r1 = Vec::with_capacity(4);
@@ -92,6 +97,33 @@ fn c01_rm_remove() {
     kani::cover!(x == 0 && v[0] == y && v[1] == y, "duplicate entry, one removed");
     kani::cover!(x == 0 && v[1] == y && v[0] != y, "second entry removed");
     kani::cover!(x >= 3, "out of range");
+    core::mem::forget(m);
+}
+
+// removal from a row of three keeps the remaining entries in their (chronological) order
+#[kani::proof]
+#[kani::unwind(6)]
+fn c01_rm_remove_keeps_order() {
+    let v = any_vals();
+    let w: u32 = kani::any();
+    let y: u32 = kani::any();
+    kani::assume(w < 8 && y < 8);
+    let mut m = mk_rm_first(&v, Some(w));
+    m.remove(TextResourceHandle::new(0), AnnotationHandle::new(y as usize));
+    // oracle: drop the first occurrence of y from [w, v0, v1]
+    let src = [w, v[0], v[1]];
+    let mut want = [99u32; 3];
+    let mut n = 0;
+    let mut dropped = false;
+    let mut i = 0;
+    while i < 3 {
+        if !dropped && src[i] == y { dropped = true; } else { want[n] = src[i]; n += 1; }
+        i += 1;
+    }
+    assert!(row(&m, 0) == (n, want[0], want[1], want[2]), "remove(x,y) drops one occurrence and keeps the others in their order");
+    assert!(row(&m, 1) == (1, v[2], 99, 99) && row(&m, 2).0 == 0, "other rows untouched");
+    kani::cover!(dropped && w == y && v[0] != v[1], "oldest of three distinct entries removed");
+    kani::cover!(!dropped, "nothing to remove");
     core::mem::forget(m);
 }
 
